@@ -467,5 +467,7 @@ def main(rep, tier):
     return rep.finish(
         "Structural clauses of the statement: sticky final states, clear-then-drive on every call, panic containment, side-effect-free "
         "error exits of the stream parser (the error repeats, no further output), identical classification of decode failures at the "
-        "three header sites, the total error-conversion table, conversions at non-final states.",
-        not_decided="absence of panics (arithmetic, slicing, expect: needs relational numeric reasoning across calls; inventory in the evidence notes only) and chunking-invariance of outcomes")
+        "three header sites, the total error-conversion table, conversions at non-final states; buffer bookkeeping (R3.10) and "
+        "arithmetic / slicing safety of the framing code (R3.11) by path-sensitive abstract interpretation in linear cursor forms.",
+        not_decided="panics from expect/unwrap on Option/Result values outside the modelled ones (parse_buffered's VarInt arithmetic; inventory in the evidence notes only), "
+                    "termination of each call (no hang) and chunking-invariance of outcomes")
